@@ -138,6 +138,43 @@ def empty_means_all(repo, rep, pdh):
                             f"are then dropped / treated by the wrong rule", stmt=f"result of {h.name} iterated instead of the requested columns")
 
 
+def alias_agreement(repo, rep):
+    """R14.11: a bin specification may spell a key in two ways (`binWidth`/`bin_width`, `origin`/`bin_offset`); the spellings are
+    introduced by the nested read `d.get("A", d.get("B", default))`.  Every function of the dataframe interface that reads one
+    spelling of such a pair reads the other as well (sibling agreement between the quantity helpers and get_hist_bin)."""
+    r11 = rep.rule("R14.11", "both spellings of an aliased bin-spec key are read wherever one of them is", floor=4)
+    fns = [x for x in repo.all_functions() if x.module.name.startswith(DF) and "spark" not in x.module.name]
+    groups = set()
+    reads = {}
+    for f in fns:
+        rd = set()
+        for n in ast.walk(f.node):
+            key = None
+            if isinstance(n, ast.Call) and isinstance(n.func, ast.Attribute) and n.func.attr == "get" and n.args and isinstance(n.args[0], ast.Constant) and isinstance(n.args[0].value, str):
+                key = n.args[0].value
+                if len(n.args) == 2 and isinstance(n.args[1], ast.Call) and isinstance(n.args[1].func, ast.Attribute) and n.args[1].func.attr == "get" and n.args[1].args \
+                        and isinstance(n.args[1].args[0], ast.Constant) and isinstance(n.args[1].args[0].value, str) and ast.unparse(n.func.value) == ast.unparse(n.args[1].func.value):
+                    groups.add(frozenset((key, n.args[1].args[0].value)))
+            elif isinstance(n, ast.Subscript) and isinstance(n.ctx, ast.Load) and isinstance(n.slice, ast.Constant) and isinstance(n.slice.value, str):
+                key = n.slice.value
+            if key is not None:
+                rd.add(key)
+        reads[f] = rd
+    for grp in sorted(groups, key=sorted):
+        for f in fns:
+            got = reads[f] & grp
+            if not got:
+                continue
+            ok = got == grp
+            rep.analysed_functions.add(f.construct)
+            r11.ob(ok, f"{f.qualname}: reads {sorted(got)} of the aliased pair {sorted(grp)}")
+            if not ok:
+                missing = sorted(grp - got)
+                rep.finding("R14.11", f, f.node, f"{f.qualname} reads `{sorted(got)[0]}` of a bin specification but not its alternative spelling `{missing[0]}`, which the other "
+                            f"consumers of the specification honour: a specification written with `{missing[0]}` is binned with the default here and with the given "
+                            f"value there - the histogram is not the tree the specification describes", stmt=f"alias {missing[0]} of {sorted(got)[0]} not read")
+
+
 def run(repo, rep, tier):
     rep.extra["explanation"] = (
         "Narrow structural part of the DataFrame interface: (R14.1) along the call graph from make_histograms the input "
@@ -276,6 +313,9 @@ def run(repo, rep, tier):
 
     # ---------------- R14.10: "empty selection means all columns" helpers
     empty_means_all(repo, rep, pdh)
+
+    # ---------------- R14.11: alternative spellings of a bin-spec key are honoured by every consumer of that key
+    alias_agreement(repo, rep)
 
     # ---------------- R14.2
     derived = {}
